@@ -16,6 +16,7 @@ RULE = (
     "reset_model calls and a second batch of observations between steps (the histories sampling.sample and repeated training produce); per step all 12 blocks are observed. Non-trivial = a checked draw for a coordinate with >=1 observation while some embedding is non-zero (from step 2 on); distinct = distinct "
     "case JSON; per-block draw counts are in counters."
     ' Also: models holding 2**16+1 .. 2**18+5 observations (thorough up to 2**20+3): fitted-values and export clauses after every whole step.'
+    ' Also: growing models (batches of 100 .. 200000 observations between steps).'
 )
 ASSUMPTIONS = [
     "conjugacy is asserted for observation noise, intercept scale tau0, embedding scales tau (multiplicative gamma process) and for the global treatment scales eta0/eta1/eta2 (given the local scales the sampler holds after the block: the prior precision of V[m] is phi[m]*eta, which the Gaussian-block oracle already pins); the local scales phi* and the auxiliary variables are checked for order, bounds and finiteness only (their hyper-prior is not documented beyond the code)",
@@ -67,6 +68,9 @@ def exhaustive(tier):
     # (1e6) only after some tens of sweeps - states no short history visits
     for n_, D_ in [(2**17 + 6000, 2), (2**18 + 5, 1), (2**16 + 1, 3)] + ([(3 * 2**17 + 77, 2), (2**20 + 3, 1), (2**19 - 1, 2)] if tier != "quick" else []):
         yield {"kind": "big_model", "n": n_, "D": D_, "steps": 3, "seed": n_ % 1000}
+    # a model that keeps growing: batches of some thousand observations between steps
+    for bs_, D_ in [([3000, 3000, 2500], 2), ([5000, 70000], 1), ([1000] * 9, 2)] + ([([4096, 4096, 1], 2), ([40000, 30000, 70000, 200000], 1), ([100] * 50, 1)] if tier != "quick" else []):
+        yield {"kind": "big_model", "n": sum(bs_), "D": D_, "steps": len(bs_) + 2, "seed": sum(bs_) % 997, "batches": bs_}
     for D, seed in ([(20, 1), (20, 2), (16, 3)] if tier == "quick" else [(20, s_) for s_ in range(1, 7)] + [(16, 3), (24, 4)]):
         yield {"screen": _LONG_SCREEN, "extra_samples": 0, "extra_treatments": seed % 2, "D": D, "steps": 60, "events": ["none"] * 6, "first_batch": 30, "seed": seed, "default_generator": False}
 
@@ -332,14 +336,35 @@ def _check_big_model(case):
     doses = np.where(np.stack([a, b], axis=1) == nt, 0.0, 1.0)
     screen = Screen(treatment_names=np.stack([names[a], names[b]], axis=1), treatment_doses=doses, observations=r.uniform(0.05, 0.95, size=n), observation_mask=np.ones(n, dtype=bool), sample_names=np.array(["s%d" % i for i in range(ns)])[r.integers(0, ns, size=n)], plate_names=np.array(["p%d" % i for i in range(9)])[r.integers(0, 9, size=n)], control_treatment_name="ctl")
     model = scm.SparseDrugCombo(experiment_space=ExperimentSpace.from_screen(screen), n_embedding_dimensions=D)
-    model.add_observations(screen)
     model.set_rng(np.random.default_rng(case["seed"] + 1))
     wm = attach(model, "wrapped_model")
+    # the observations arrive in one batch, or in several (the model keeps growing between steps)
+    cuts = np.cumsum(case.get("batches") or [n]).tolist()
+    require(cuts[-1] == n, "harness", "batches do not add up")
+    given = 0
     for step in range(case["steps"]):
+        if step < len(cuts):
+            idx = np.zeros(n, dtype=bool)
+            idx[given : cuts[step]] = True
+            model.add_observations(screen.subset(idx))
+            given = cuts[step]
+            if step + 1 == case["steps"] and step + 1 < len(cuts):
+                raise HarnessError("more batches than steps")
         with np.errstate(all="ignore"):
             model.step()
         s_ = G.State(wm)
-        require(s_.n == n, "big.holds_all_observations", lambda: "the model holds %d of the %d observations it was given" % (s_.n, n))
+        require(s_.n == given, "big.holds_all_observations", lambda: "the model holds %d of the %d observations it was given" % (s_.n, given))
+        full, n_all = screen, n
+        screen, n = (full if given == n_all else full.subset(np.arange(n_all) < given)), given
+        try:
+            _big_step_checks(case, model, wm, s_, screen, n, step)
+        finally:
+            screen, n = full, n_all
+    return {"nontrivial": True, "labels": ["big_model", "observations>=2^%d" % (n.bit_length() - 1)] + (["batches=%d" % len(cuts)] if len(cuts) > 1 else [])}
+
+
+def _big_step_checks(case, model, wm, s_, screen, n, step):
+    if True:
         mu = G.fitted(s_)
         Mu = np.asarray(wm.Mu, dtype=float)
         tol = 1e-3 * (np.abs(mu) + 1.0 / np.sqrt(s_.prec)) + 1e-4
@@ -348,7 +373,9 @@ def _check_big_model(case):
         pred = np.asarray(model.get_model_state().predict_conditional_mean(screen), dtype=float)
         bad = np.flatnonzero(~(np.abs(pred - mu) <= tol))
         require(bad.size == 0, "big.export.predicts_fitted_values", lambda: "%d observations, step %d: the exported sample's predictions for %d training experiments (first: row %d) differ from the sampler's fitted values" % (n, step + 1, bad.size, int(bad[0])))
-    return {"nontrivial": True, "labels": ["big_model", "observations>=2^%d" % (n.bit_length() - 1)]}
+        # the stored design (sample and the two treatments of every observation) is the data that was handed over, in order
+        tid, sid = np.asarray(screen.treatment_ids), np.asarray(screen.sample_ids)
+        require(np.array_equal(s_.cl, sid) and np.array_equal(np.sort(np.stack([s_.a, s_.b], axis=1), axis=1), np.sort(tid, axis=1)), "big.stored_design", lambda: "%d observations, step %d: the sampler's stored sample / treatment ids are not those of the observations it was given" % (n, step + 1))
 
 
 def check_case(case):
